@@ -200,6 +200,18 @@ func cmdCheck(args []string) int {
 			cts = append(cts, c)
 		}
 	}
+	if pc.Sweep == "provider-frames" {
+		have := map[string]bool{}
+		for _, c := range cts {
+			have[c.Key] = true
+		}
+		for _, c := range w.providerCone(*prop) {
+			if have[c.Key] || (*only != "" && !strings.Contains(c.Key, *only)) {
+				continue
+			}
+			cts = append(cts, c)
+		}
+	}
 	if pc.Sweep == "error-kind" {
 		cts = w.errKindSweep(cts, &pc, *prop, *only)
 	}
@@ -216,6 +228,7 @@ func cmdCheck(args []string) int {
 			}
 			return false
 		}
+		w.coneBound = true
 		for _, c := range w.coneContracts(w.rootsByPattern(pc.Roots), excl, *prop, func(c *Contract) { c.Safety = true; c.NoNilChecks = true }) {
 			if have[c.Key] || (*only != "" && !strings.Contains(c.Key, *only)) {
 				continue
